@@ -402,6 +402,19 @@ func ruleLeaseDuration() *Rule {
 							ob.Verdict, ob.Detail = Discharged, "expiration := "+describeTimeBase(base)+".Add(l.duration)"
 							out = append(out, ob)
 							out = append(out, leaseBase(p, id, fn, base)...)
+							// a time handed in by the caller can be older than the one the lease was last renewed from (the
+							// reply that completes round k may arrive after round k+1 was confirmed): the lease only moves forward
+							if !isTimeNow(base) {
+								mono := Obligation{Rule: id, Construct: "LEASE-MONO renewal never shortens the lease in " + FuncName(fn), Pos: p.InstrPos(in)}
+								if leaseStoreGuardedByAfter(s, expFld) {
+									mono.Verdict, mono.Detail = Discharged, "the store is reached only if the new expiration is after the current one"
+								} else {
+									mono.Verdict = Violated
+									mono.Detail = "the expiration is overwritten with a time counted from a caller-supplied instant without testing that it is later than the current one: a reply that arrives late (its round's send time long past) moves the lease of a healthy leader into the past, " +
+										"and until the next confirmed round the leader — whose only protection against vote requests is its lease — grants a rejoining node's prevote and steps down on its vote request"
+								}
+								out = append(out, mono)
+							}
 							continue
 						}
 						out = append(out, ob)
@@ -713,6 +726,47 @@ func (p *Program) callsTransportSend(fn *ssa.Function, seen map[*ssa.Function]bo
 			if p.callsTransportSend(c.Common().StaticCallee(), seen) {
 				return true
 			}
+		}
+	}
+	return false
+}
+
+
+// leaseStoreGuardedByAfter: the store of the expiration is dominated by the true arm of  new.After(old)  (or the
+// false arm of its negation / of old.After(new) ... only the direct forms are recognised) where new is the stored
+// value and old a load of the expiration field.
+func leaseStoreGuardedByAfter(st *ssa.Store, expFld *types.Var) bool {
+	fn := st.Parent()
+	isOld := func(v ssa.Value) bool {
+		u, ok := v.(*ssa.UnOp)
+		if !ok || u.Op != token.MUL {
+			return false
+		}
+		fa, ok := u.X.(*ssa.FieldAddr)
+		return ok && fieldOf(fa.X.Type(), fa.Field) == expFld
+	}
+	for _, b := range fn.Blocks {
+		iff, ok := b.Instrs[len(b.Instrs)-1].(*ssa.If)
+		if !ok {
+			continue
+		}
+		cond, edge := iff.Cond, 0
+		if u, ok := cond.(*ssa.UnOp); ok && u.Op == token.NOT {
+			cond, edge = u.X, 1
+		}
+		c, ok := cond.(*ssa.Call)
+		if !ok || c.Common().StaticCallee() == nil || len(c.Common().Args) != 2 {
+			continue
+		}
+		name := c.Common().StaticCallee().String()
+		a0, a1 := c.Common().Args[0], c.Common().Args[1]
+		okForm := (name == "(time.Time).After" && a0 == st.Val && isOld(a1)) || (name == "(time.Time).Before" && isOld(a0) && a1 == st.Val)
+		if !okForm {
+			continue
+		}
+		arm := b.Succs[edge]
+		if len(arm.Preds) == 1 && arm.Dominates(st.Block()) {
+			return true
 		}
 	}
 	return false
